@@ -56,7 +56,7 @@ func (m c05) Run(ctx *core.Ctx) {
 	for i := int64(0); i < n; i++ {
 		in, base, has := startCase(r)
 		cs := &core.Case{Check: "history", Input: core.S(in), Base: core.S(base), HasBase: has,
-			Ops: genHistory(r, maxLen, histKinds{setters: true})}
+			Ops: genHistory(r, maxLen, histKinds{setters: true, clone: i%3 == 0})}
 		ctx.Begin(cs)
 		m.Exec(ctx, cs)
 	}
@@ -127,6 +127,16 @@ func (c05) Exec(ctx *core.Ctx, cs *core.Case) {
 	applied := 0
 	for i, op := range cs.Ops {
 		op = respellOp(op, mu.Ten())
+		if op.Name == "clone" {
+			// the history continues on a copy: the setters must do to it what the standard does to the
+			// same record (state a copy forgets to carry over only shows in what later setters do)
+			if pan := ctx.Call(len(mu.Href(false))+256, func() { u = u.Clone() }); pan != nil || u == nil {
+				ctx.Count("panics(C02)")
+				return
+			}
+			ctx.Count("clone_steps")
+			continue
+		}
 		if !obs.IsSetter(op.Name) {
 			continue
 		}
